@@ -1,8 +1,8 @@
 SPECIFICATION Spec
 CONSTANTS
-  Prog <- P_S2RR
+  Prog <- P_S2R2C
   Procs = {1,2,3,4}
-  Fixed = FALSE
+  Fixed = TRUE
   EnableFirst = TRUE
   Mon = TRUE
 INVARIANTS LinStrict LinWeak QuiescentAgrees AtMostOnceI NoInventionI NoLostWakeupQ ParkedRegistered WaitersSane
